@@ -116,14 +116,24 @@ class ObservedCompiler(Compiler):  # noqa: D101
                     compiled_net.add_edge(link_parent, obs_node, **source_net[parent][node].copy())
 
         # Check that there are no stochastic nodes in the ancestors
+        # Nodes with given observed data do not depend on their parents
+        given = {observed_name(node) for node in compiled_net.graph['observed']}
         for node in uses_observed:
             # Use the observed version to query observed ancestors in the compiled_net
-            obs_node = observed_name(node)
-            for ancestor_node in nx.ancestors(compiled_net, obs_node):
-                if '_stochastic' in source_net.nodes.get(ancestor_node, {}):
-                    raise ValueError("Observed nodes must be deterministic. Observed "
-                                     "data depends on a non-deterministic node {}."
-                                     .format(ancestor_node))
+            fringe = [observed_name(node)]
+            seen = set()
+            while fringe:
+                for ancestor_node in compiled_net.predecessors(fringe.pop()):
+                    if ancestor_node in seen:
+                        continue
+                    seen.add(ancestor_node)
+                    state = source_net.nodes.get(ancestor_node, {}).get('attr_dict', {})
+                    if '_stochastic' in state:
+                        raise ValueError("Observed nodes must be deterministic. Observed "
+                                         "data depends on a non-deterministic node {}."
+                                         .format(ancestor_node))
+                    if ancestor_node not in given:
+                        fringe.append(ancestor_node)
 
         return compiled_net
 
